@@ -222,23 +222,30 @@ func NameClass(n string) string {
 // constructor tree with atoms reduced to their class and names to their class.
 func (t *T) Shape() string {
 	var b strings.Builder
-	t.shape(&b)
+	t.shape(&b, NameClass)
 	return b.String()
 }
 
-func (t *T) shape(b *strings.Builder) {
+// ShapeWith is Shape with a caller-supplied abstraction of names.
+func (t *T) ShapeWith(nameClass func(string) string) string {
+	var b strings.Builder
+	t.shape(&b, nameClass)
+	return b.String()
+}
+
+func (t *T) shape(b *strings.Builder, nc func(string) string) {
 	switch t.Kind {
 	case Atom:
 		b.WriteString(AtomClass(t.Atom))
 	case List:
 		b.WriteByte('[')
-		t.Elem[0].shape(b)
+		t.Elem[0].shape(b, nc)
 		b.WriteByte(']')
 	case Map:
 		b.WriteByte('{')
-		t.Elem[0].shape(b)
+		t.Elem[0].shape(b, nc)
 		b.WriteByte(' ')
-		t.Elem[1].shape(b)
+		t.Elem[1].shape(b, nc)
 		b.WriteByte('}')
 	case Tuple, Struct:
 		b.WriteByte('(')
@@ -246,15 +253,15 @@ func (t *T) shape(b *strings.Builder) {
 			if i > 0 {
 				b.WriteByte(' ')
 			}
-			e.shape(b)
+			e.shape(b, nc)
 		}
 		b.WriteByte(')')
 		if t.Kind == Struct {
 			b.WriteByte('<')
-			b.WriteString(NameClass(t.Name))
+			b.WriteString(nc(t.Name))
 			for _, f := range t.Fields {
 				b.WriteByte(',')
-				b.WriteString(NameClass(f))
+				b.WriteString(nc(f))
 			}
 			b.WriteByte('>')
 		}
@@ -355,6 +362,53 @@ func (t *T) Structs() []*T {
 	return out
 }
 
+// Kinds summarises which constructs a (minimised) tree is made of: a bare
+// atom is "atom=<letter>"; otherwise the sorted set of its constructors, of
+// the classes of struct / member names that are not plain, and of the classes
+// of the atoms other than i (i is what the shrinker leaves where the atom
+// does not matter).
+func (t *T) Kinds() string {
+	if t.Kind == Atom {
+		return "atom=" + string(t.Atom)
+	}
+	set := map[string]bool{}
+	t.Contains(func(x *T) bool {
+		switch x.Kind {
+		case Atom:
+			if x.Atom != 'i' {
+				set["atom="+AtomClass(x.Atom)] = true
+			}
+		case Struct:
+			set["struct"] = true
+			if c := NameClass(x.Name); c != "plain" {
+				set["struct-name="+c] = true
+			}
+			for _, f := range x.Fields {
+				if c := NameClass(f); c != "plain" && c != "lower" {
+					set["member-name="+c] = true
+				}
+			}
+			if len(x.Elem) == 0 {
+				set["empty"] = true
+			}
+		case Tuple:
+			set["tuple"] = true
+			if len(x.Elem) == 0 {
+				set["empty"] = true
+			}
+		default:
+			set[x.Kind.String()] = true
+		}
+		return false
+	})
+	var l []string
+	for k := range set {
+		l = append(l, k)
+	}
+	sort.Strings(l)
+	return strings.Join(l, "+")
+}
+
 // Less orders types by (size, signature): the shrinker and the choice of the
 // minimal witness are deterministic.
 func Less(a, b *T) bool {
@@ -365,8 +419,12 @@ func Less(a, b *T) bool {
 	if len(as) != len(bs) {
 		return len(as) < len(bs)
 	}
-	return as < bs
+	return canon.Replace(as) < canon.Replace(bs)
 }
+
+// canon makes i the smallest and s the second smallest letter, so that the
+// shrinker converges on i (then s) wherever the atom does not matter.
+var canon = strings.NewReplacer("i", "\x01", "s", "\x02")
 
 // Shrinks proposes strictly smaller or simpler variants of t: each child in
 // place of its parent, each subtree replaced by the atom i, each struct
@@ -391,6 +449,9 @@ func (t *T) Shrinks() []*T {
 	}
 	if t.Kind == Atom && t.Atom != 'i' {
 		add(A('i'))
+		if t.Atom != 's' {
+			add(A('s'))
+		}
 	}
 	if t.Kind == Struct {
 		add(Tu(t.Clone().Elem...))
